@@ -41,11 +41,12 @@ fn all_blank(bytes: &[u8], from: usize, to: usize) -> bool {
     chk(0) && chk(1) && chk(2) && chk(3) && chk(4)
 }
 
-fn back_step(input: &'static str) {
+fn back_step(input: &'static str) -> u8 {
     let bytes = input.as_bytes();
     let mut it = CommentIter { src: input };
     let item = it.next_back();
     let rest = it.src;
+    let code: u8 = match item { None => 0, Some(c) if c.is_empty() => 1, Some(_) => 2 };
     // the remaining text is a prefix of the input
     assert!(offset_in(input, rest) == 0 || rest.is_empty(), "rest is a prefix");
     assert!(rest.len() <= input.len());
@@ -57,27 +58,25 @@ fn back_step(input: &'static str) {
             assert!(all_blank(bytes, rest.len(), at), "only blanks between rest and item");
             assert!(all_blank(bytes, at + c.len(), input.len()), "only blanks after the item");
             assert!(c.starts_with("//") || c.starts_with("/*"), "a non-empty item is a comment");
-            kani::cover!(c.starts_with("//"), "line comment recovered");
-            kani::cover!(c.starts_with("/*"), "block comment recovered");
         }
         Some(_) => {
             // an empty item stands for one line end; at most blanks are consumed
             assert!(all_blank(bytes, rest.len(), input.len()), "an empty item consumes blanks only");
             assert!(rest.len() < input.len(), "progress");
-            kani::cover!(true, "blank line reported");
         }
         None => {
             assert!(all_blank(bytes, rest.len(), input.len()), "None consumes blanks only");
-            kani::cover!(!rest.is_empty(), "stopped at code");
         }
     }
+    code
 }
 
-fn fwd_step(input: &'static str) {
+fn fwd_step(input: &'static str) -> u8 {
     let bytes = input.as_bytes();
     let mut it = CommentIter { src: input };
     let item = it.next();
     let rest = it.src;
+    let code: u8 = match item { None => 0, Some(c) if c.is_empty() => 1, Some(_) => 2 };
     assert!(rest.len() <= input.len());
     let rest_at = if rest.is_empty() { input.len() } else { offset_in(input, rest) };
     assert!(rest_at + rest.len() <= input.len(), "rest lies inside the input");
@@ -89,18 +88,15 @@ fn fwd_step(input: &'static str) {
             assert!(all_blank(bytes, 0, at), "only blanks before the item");
             assert!(all_blank(bytes, at + c.len(), rest_at), "only blanks between item and rest");
             assert!(c.starts_with("//") || c.starts_with("/*"), "a non-empty item is a comment");
-            kani::cover!(c.starts_with("//"), "line comment recovered");
-            kani::cover!(c.starts_with("/*"), "block comment recovered");
         }
         Some(_) => {
             assert!(all_blank(bytes, 0, rest_at), "blank line");
-            kani::cover!(true, "blank line reported");
         }
         None => {
             assert!(all_blank(bytes, 0, rest_at), "None consumes blanks only");
-            kani::cover!(true, "stopped");
         }
     }
+    code
 }
 
 macro_rules! gap {
@@ -115,42 +111,52 @@ macro_rules! gap {
 #[kani::proof]
 #[kani::unwind(4)]
 fn c10_back_len2() {
-    back_step(gap!(a, b));
+    let code = back_step(gap!(a, b));
+    kani::cover!(code == 1, "blank line reported");
+    kani::cover!(code == 0, "stopped at code");
 }
 
 //@ tier=quick cap=1200 funcs=CommentIter::next_back bound=every_string_of_length_3_over_6_letter_alphabet
 #[kani::proof]
 #[kani::unwind(5)]
 fn c10_back_len3() {
-    back_step(gap!(a, b, c));
+    let code = back_step(gap!(a, b, c));
+    kani::cover!(code == 2, "comment recovered");
+    kani::cover!(code == 1, "blank line reported");
 }
 
 //@ tier=thorough cap=3000 mem=14 funcs=CommentIter::next_back bound=every_string_of_length_4_over_6_letter_alphabet
 #[kani::proof]
 #[kani::unwind(6)]
 fn c10_back_len4() {
-    back_step(gap!(a, b, c, d));
+    let code = back_step(gap!(a, b, c, d));
+    kani::cover!(code == 2, "comment recovered");
 }
 
 //@ tier=quick cap=900 funcs=CommentIter::next bound=every_string_of_length_2_over_6_letter_alphabet
 #[kani::proof]
 #[kani::unwind(4)]
 fn c10_fwd_len2() {
-    fwd_step(gap!(a, b));
+    let code = fwd_step(gap!(a, b));
+    kani::cover!(code == 2, "comment recovered");
+    kani::cover!(code == 1, "blank line reported");
+    kani::cover!(code == 0, "stopped");
 }
 
 //@ tier=quick cap=1200 funcs=CommentIter::next bound=every_string_of_length_3_over_6_letter_alphabet
 #[kani::proof]
 #[kani::unwind(5)]
 fn c10_fwd_len3() {
-    fwd_step(gap!(a, b, c));
+    let code = fwd_step(gap!(a, b, c));
+    kani::cover!(code == 2, "comment recovered");
 }
 
 //@ tier=thorough cap=3000 mem=14 funcs=CommentIter::next bound=every_string_of_length_4_over_6_letter_alphabet
 #[kani::proof]
 #[kani::unwind(6)]
 fn c10_fwd_len4() {
-    fwd_step(gap!(a, b, c, d));
+    let code = fwd_step(gap!(a, b, c, d));
+    kani::cover!(code == 2, "comment recovered");
 }
 
 //@ tier=quick cap=900
